@@ -96,11 +96,18 @@ structure VAIn where
   name : String
   pv : Int
   otherNode : Bool
+  /-- deletionTimestamp set, held by the external-attacher's finalizer -/
+  deleting : Bool
+  /-- status.attached = false -/
+  unattached : Bool
 
 def parseVA (j : Json) : Except String VAIn := do
-  pure { name := ← strF j "name", pv := ← intF j "pv", otherNode := ← boolD j "otherNode" false }
+  pure { name := ← strF j "name", pv := ← intF j "pv", otherNode := ← boolD j "otherNode" false,
+         deleting := ← boolD j "deleting" false, unattached := ← boolD j "unattached" false }
 
-def VAIn.toModel (v : VAIn) : VA := { name := v.name, pv := if v.pv ≥ 0 then some v.pv.toNat else none, onNode := !v.otherNode }
+def VAIn.toModel (v : VAIn) : VA :=
+  { name := v.name, pv := if v.pv ≥ 0 then some v.pv.toNat else none, onNode := !v.otherNode,
+    terminating := v.deleting, unattached := v.unattached }
 
 def parseTermAnn (j : Json) : Except String TermAnn := do
   if ← boolD j "termBad" false then pure .bad
@@ -161,18 +168,25 @@ def nodeSnapOf (pods : PodTable) (vas : VATable) (s : Json) : Except String Karp
   pure { now := now, tainted := ← boolF s "tainted", ready := (← strF s "ready") == "True", claims := ← natF s "claims",
          deadline := ← intO s "termTime", pods := specPods, vas := specVAs, instanceGone := (← strF s "instance") == "gone" }
 
+/-- for the diagnostic only: which attachments exist, and which of them are deleted-but-held -/
+def vaNote (s : Json) : String :=
+  let names (k : String) : List String := match fldOpt s k with
+    | some j => (strList j).toOption.getD []
+    | none => []
+  s!" attachments={names "vas"} (terminating: {names "vasTerminating"})"
+
 def judgeNodeRemoval (pods : PodTable) (vas : VATable) (s : Json) : Except String Verdict := do
   let snap ← nodeSnapOf pods vas s
   if Karp.Spec.Finalize.nodeRemovalOk snap then pure {}
   else
-    let why := s!"the Node's termination finalizer was removed while: tainted={snap.tainted} drained={snap.drained} volumesOk={snap.volumesOk} instanceGone={snap.instanceGone} ready={snap.ready} claims={snap.claims}"
+    let why := s!"the Node's termination finalizer was removed while: tainted={snap.tainted} drained={snap.drained} volumesOk={snap.volumesOk} instanceGone={snap.instanceGone} ready={snap.ready} claims={snap.claims}" ++ vaNote s
     pure { ok := false, why := why, sig := if snap.claims > 1 then "node:duplicate-claims" else "node:finalizer-early" }
 
 def judgeInstanceDelete (pods : PodTable) (vas : VATable) (s : Json) : Except String Verdict := do
   let snap ← nodeSnapOf pods vas s
   if Karp.Spec.Finalize.instanceDeleteOk snap then pure {}
   else pure { ok := false, sig := "node:instance-delete-early",
-              why := s!"the provider was asked to terminate the instance while: tainted={snap.tainted} drained={snap.drained} volumesOk={snap.volumesOk}" }
+              why := s!"the provider was asked to terminate the instance while: tainted={snap.tainted} drained={snap.drained} volumesOk={snap.volumesOk}" ++ vaNote s }
 
 def judgeClaimRemoval (s : Json) : Except String Verdict := do
   let snap : Karp.Spec.Finalize.ClaimSnap :=
@@ -323,25 +337,34 @@ def claimOp (inp impl : Json) : Except String Resp := do
 def parseProvFaults (j : Json) : Except String ProvFaults := do
   pure { get := ← faultOf j "providerGet", delete := ← faultOf j "providerDelete", create := ← parseCreateOut j }
 
-def parseEvent (j : Json) : Except String (Event × Option PodIn) := do
+/-- an event, and the static facts of the pod / attachment it introduces (for the specification's lookup tables) -/
+structure Introduced where
+  pod : Option PodIn := none
+  va : Option VAIn := none
+
+def parseEvent (j : Json) : Except String (Event × Introduced) := do
   let op ← strF j "op"
   let fj : Json := (fldOpt j "faults").getD (jObj [])
   match op with
-  | "rn" => pure (.reconcileNode (← parseNodeFaults fj) (← parseProvFaults fj), none)
-  | "rc" => pure (.reconcileClaim (← parseClaimFaults fj) (← parseProvFaults fj), none)
-  | "delNode" => pure (.deleteNode, none)
-  | "delClaim" => pure (.deleteClaim, none)
-  | "podGone" => pure (.podGone (← strF j "name"), none)
-  | "podTerm" => pure (.podTerminating (← strF j "name"), none)
+  | "rn" => pure (.reconcileNode (← parseNodeFaults fj) (← parseProvFaults fj), {})
+  | "rc" => pure (.reconcileClaim (← parseClaimFaults fj) (← parseProvFaults fj), {})
+  | "delNode" => pure (.deleteNode, {})
+  | "delClaim" => pure (.deleteClaim, {})
+  | "podGone" => pure (.podGone (← strF j "name"), {})
+  | "podTerm" => pure (.podTerminating (← strF j "name"), {})
   | "podAdd" => do
     let p ← parsePod (← fld j "pod")
-    pure (.podAdd p.toModel, some p)
-  | "vaGone" => pure (.vaGone (← strF j "name"), none)
-  | "tick" => pure (.tick (← natF j "d"), none)
-  | "instGone" => pure (.instanceGone, none)
-  | "ready" => pure (.setReady true, none)
-  | "notReady" => pure (.setReady false, none)
-  | "restart" => pure (.restart, none)
+    pure (.podAdd p.toModel, { pod := some p })
+  | "vaGone" => pure (.vaGone (← strF j "name"), {})
+  | "vaAdd" => do
+    let v ← parseVA (← fld j "va")
+    pure (.vaAdd v.toModel, { va := some v })
+  | "vaTerm" => pure (.vaTerminating (← strF j "name"), {})
+  | "tick" => pure (.tick (← natF j "d"), {})
+  | "instGone" => pure (.instanceGone, {})
+  | "ready" => pure (.setReady true, {})
+  | "notReady" => pure (.setReady false, {})
+  | "restart" => pure (.restart, {})
   | _ => throw s!"bad event {op}"
 
 def initialWorld (inp : Json) (pods : List PodIn) (vas : List VAIn) : Except String World := do
@@ -383,12 +406,14 @@ def digestJson (phases : List (String × String)) (w : World) (info : PassInfo) 
   let podsSorted := (w.pods.filter (·.onNode)).toArray.qsort (fun a b => a.name < b.name) |>.toList
   let podsJ := podsSorted.map (fun p => jObj [("name", jStr p.name), ("phase", jStr ((phases.lookup p.name).getD "")), ("deletedAt", jOptInt p.deletedAt)])
   let vasSorted := ((w.vas.filter (·.onNode)).map (·.name)).toArray.qsort (· < ·) |>.toList
+  let vasTermSorted := ((w.vas.filter (fun v => v.onNode && v.terminating)).map (·.name)).toArray.qsort (· < ·) |>.toList
   let res : String :=
     if !isReconcile then ""
     else if info.skipped then "skipped"
     else if info.launchPath && info.res ≠ .crash then "-"
     else resStr info.res
   jObj [("now", jInt w.now), ("node", nodeJ), ("claim", claimJ), ("pods", jArr podsJ), ("vas", jArr (vasSorted.map jStr)),
+        ("vasTerminating", jArr (vasTermSorted.map jStr)),
         ("instance", jStr (instStr w.inst)), ("lost", jBool w.lost),
         ("calls", jArr (info.calls.map (fun a => jStr (actStr a)))), ("result", jStr res), ("err", jBool info.err)]
 
@@ -400,8 +425,9 @@ def protoOp (inp impl : Json) : Except String Resp := do
   let podIns ← (← arrF inp "pods").mapM parsePod
   let vaIns ← (← arrF inp "vas").mapM parseVA
   let evs ← (← arrF inp "events").mapM parseEvent
-  let added := evs.filterMap (·.2)
+  let added := evs.filterMap (·.2.pod)
   let allPods := podIns ++ added
+  let allVAs := vaIns ++ evs.filterMap (·.2.va)
   let phases := allPods.map (fun p => (p.name, p.phase))
   let w0 ← initialWorld inp podIns vaIns
   -- run the model along the history
@@ -428,7 +454,7 @@ def protoOp (inp impl : Json) : Except String Resp := do
   -- the property, on the ground truth
   let removed ← arrD impl "removed"
   let asked ← arrD impl "asked"
-  let v ← judgeSnapshots (allPods.map (fun p => (p.name, p))) (vaIns.map (fun v => (v.name, v))) removed asked
+  let v ← judgeSnapshots (allPods.map (fun p => (p.name, p))) (allVAs.map (fun v => (v.name, v))) removed asked
   -- "a completed deletion never orphans a cloud instance": judged on every reported state
   let mut orphan : Verdict := {}
   let mut k := 0
